@@ -39,6 +39,16 @@ class Budget(BaseException):
 FEAS_TIMEOUT_MS = 2000
 
 
+def guarded_check(solver, timeout_ms):
+    """solver.check(); exceptions count as unknown (a watchdog that interrupts the context from a timer thread was tried
+    and made later checks of the same context return unknown - removed)"""
+    try:
+        r = str(solver.check())
+    except z3.Z3Exception:
+        r = 'unknown'
+    return r
+
+
 class State:
     """State of one symbolic run (one path)."""
 
@@ -91,7 +101,7 @@ class State:
         self.solver.set('timeout', 150)
         self.solver.push()
         self.solver.add(c)
-        r = str(self.solver.check())
+        r = guarded_check(self.solver, 150)
         s = self.solver
         if r == 'sat':
             try:
@@ -106,7 +116,7 @@ class State:
             s.add(*self.pc)
             s.add(*self.defs)
             s.add(c)
-            r = str(s.check())
+            r = guarded_check(s, FEAS_TIMEOUT_MS)
             if r == 'sat':
                 try:
                     self.model = s.model()
@@ -1115,7 +1125,7 @@ def decide(path, violation, timeout_ms=60000, closure=False, tangent=False, extr
     s.add(*extra)
     s.add(violation)
     t0 = time.time()
-    r = str(s.check())
+    r = guarded_check(s, timeout_ms)
     dt = time.time() - t0
     if stats is not None:
         stats['solver_s'] += dt
@@ -1238,9 +1248,10 @@ def float_coercion_patches():
                 if floatish and _has_sym(a):
                     r = orig(a, object, *args, **kw)
                     return r.view(SymArray) if isinstance(r, numpy.ndarray) and r.ndim > 0 else r
-                if dtype is None:
-                    return orig(a, *args, **kw)
-                return orig(a, dtype, *args, **kw)
+                r = orig(a, *args, **kw) if dtype is None else orig(a, dtype, *args, **kw)
+                if isinstance(r, numpy.ndarray) and r.dtype == object and r.ndim > 0 and type(r) is numpy.ndarray and _has_sym(r):
+                    return r.view(SymArray)     # keep the proxy-aware array type through asarray()
+                return r
             wrapper.__wrapped__ = orig
             return wrapper
         out.append((numpy, name, make(orig)))
